@@ -206,7 +206,7 @@ theorem run_append (s : PStore ℝ) (a b : List (POp ℝ)) : POp.run s (a ++ b) 
 
 /-- **shared_refines**: in a history without in-place mutation, sharing is not observable — the
 views of the pointer model run exactly like the by-value model (so `param_inv`,
-`reject_unchanged`, `setValue_raises_iff`, `auto_total`, `auto_nearest` … apply to it) -/
+`reject_unchanged`, `setValue_raises_iff`, `auto_total_partial`, `auto_nearest_partial`, `auto_lands` … apply to it) -/
 theorem shared_refines (ops : List (SOp ℝ)) (w : SWorld ℝ) (hw : w.WF) (hp : PlainRun w ops) :
     (SOp.run w ops).viewStore = POp.run w.viewStore (eraseRun w ops) := by
   induction ops generalizing w with
